@@ -29,6 +29,8 @@ ASSUMPTIONS = [
     'element-wise filters / appends)',
     '"reported as active" is held to count_active_orders and to the post-state of update_active_orders (get_active_orders may contain '
     'final orders between two prunings): deliberate narrowing, DESIGN.md C05',
+    'A-16 peewee default objects are shared between records (modelled); resubmit / execute_partially are live-mode API without a caller in '
+    'jesse/ and are under contract for final orders only',
 ]
 TRUSTED = ['list.append', 'sum over a generator', 'filter']
 EXPLANATION = 'idempotence by empty call trace; single terminal transition; registry invariant (bounded N=3); one trade record per fill'
